@@ -800,6 +800,12 @@ UNITS = {
                           'like_name': 'like_name'},
                  ret=S),
         ]),
+    'C04_prefixlen': dict(
+        file='jedi/api/classes.py',
+        funcs=[
+            dict(name='Completion.get_completion_prefix_length', gname='gen_prefix_length',
+                 args=[('like_len', 'Z')], arg_map={'like_len': 'self._like_name_length'}, ret='Z'),
+        ]),
     # C01: the position contract
     'C01_validate': dict(
         file='jedi/api/helpers.py',
